@@ -9,6 +9,35 @@
 #include <cstdlib>
 #include <type_traits>
 #include <utility>
+// the Grant variant reports creation success as a bool, the plain one returns void (both arms of create_sandbox)
+#define VB_MODEL_BODY(SELF, GRANT) \
+protected: \
+  using Self = SELF; \
+  std::conditional_t<GRANT, bool, void> impl_create_sandbox(); \
+  void impl_destroy_sandbox(); \
+  template<typename T> void* impl_get_unsandboxed_pointer(T_PointerType p) const; \
+  template<typename T> T_PointerType impl_get_sandboxed_pointer(const void* p) const; \
+  template<typename T> \
+  static void* impl_get_unsandboxed_pointer_no_ctx(T_PointerType p, const void* ex, Self* (*f)(const void*)); \
+  template<typename T> \
+  static T_PointerType impl_get_sandboxed_pointer_no_ctx(const void* p, const void* ex, Self* (*f)(const void*)); \
+  T_PointerType impl_malloc_in_sandbox(size_t size); \
+  void impl_free_in_sandbox(T_PointerType); \
+  static bool impl_is_in_same_sandbox(const void* p1, const void* p2); \
+  bool impl_is_pointer_in_sandbox_memory(const void* p); \
+  bool impl_is_pointer_in_app_memory(const void* p); \
+  size_t impl_get_total_memory(); \
+  void* impl_get_memory_location(); \
+  void* impl_lookup_symbol(const char*); \
+  void* impl_internal_lookup_symbol(const char*); \
+  template<typename T, typename T_Converted, typename... T_Args> \
+  auto impl_invoke_with_func_ptr(T_Converted* func_ptr, T_Args&&... params) -> decltype((*func_ptr)(params...)); \
+  template<typename T_Ret, typename... T_Args> T_PointerType impl_register_callback(void*, void*); \
+  static std::pair<Self*, void*> impl_get_executed_callback_sandbox_and_key(); \
+  template<typename T_Ret, typename... T_Args> void impl_unregister_callback(void*); \
+  template<typename T> T* impl_grant_access(T* src, size_t num, bool& success); \
+  template<typename T> T* impl_deny_access(T* src, size_t num, bool& success);
+
 namespace rlbox {
 template<int Tag, bool Grant, bool Internal> struct model32_traits {};
 template<int Tag, bool Internal> struct model32_traits<Tag, true, Internal> { using can_grant_deny_access = void; };
@@ -26,32 +55,22 @@ public:
   using T_PointerType = uint32_t;
   using T_ShortType = int16_t;
 
-protected:
-  using Self = rlbox_model32_sandbox<Tag, Grant, Internal>;
-  // the Grant variant reports creation success as a bool, the plain one returns void (both arms of create_sandbox)
-  std::conditional_t<Grant, bool, void> impl_create_sandbox();
-  void impl_destroy_sandbox();
-  template<typename T> void* impl_get_unsandboxed_pointer(T_PointerType p) const;
-  template<typename T> T_PointerType impl_get_sandboxed_pointer(const void* p) const;
-  template<typename T>
-  static void* impl_get_unsandboxed_pointer_no_ctx(T_PointerType p, const void* ex, Self* (*f)(const void*));
-  template<typename T>
-  static T_PointerType impl_get_sandboxed_pointer_no_ctx(const void* p, const void* ex, Self* (*f)(const void*));
-  T_PointerType impl_malloc_in_sandbox(size_t size);
-  void impl_free_in_sandbox(T_PointerType);
-  static bool impl_is_in_same_sandbox(const void* p1, const void* p2);
-  bool impl_is_pointer_in_sandbox_memory(const void* p);
-  bool impl_is_pointer_in_app_memory(const void* p);
-  size_t impl_get_total_memory();
-  void* impl_get_memory_location();
-  void* impl_lookup_symbol(const char*);
-  void* impl_internal_lookup_symbol(const char*);
-  template<typename T, typename T_Converted, typename... T_Args>
-  auto impl_invoke_with_func_ptr(T_Converted* func_ptr, T_Args&&... params) -> decltype((*func_ptr)(params...));
-  template<typename T_Ret, typename... T_Args> T_PointerType impl_register_callback(void*, void*);
-  static std::pair<Self*, void*> impl_get_executed_callback_sandbox_and_key();
-  template<typename T_Ret, typename... T_Args> void impl_unregister_callback(void*);
-  template<typename T> T* impl_grant_access(T* src, size_t num, bool& success);
-  template<typename T> T* impl_deny_access(T* src, size_t num, bool& success);
+#define VB_COMMA ,
+VB_MODEL_BODY(rlbox_model32_sandbox<Tag VB_COMMA Grant VB_COMMA Internal>, Grant)
+};
+
+// Host-ABI sibling (the representation the bundled noop/dylib backends use: guest types = host types, pointers as void*),
+// one type per witness tag; used by the compiler-judged corpora only.
+template<int Tag>
+class rlbox_modelhost_sandbox
+{
+public:
+  using T_LongLongType = long long;
+  using T_LongType = long;
+  using T_IntType = int;
+  using T_PointerType = void*;
+  using T_ShortType = short;
+
+VB_MODEL_BODY(rlbox_modelhost_sandbox<Tag>, false)
 };
 }
